@@ -201,7 +201,7 @@ class Batch(object):
             i += n
 
 
-def pure_cases(I, r, n, B, kinds=('munge', 'split', 'btw', 'parse', 'ctx', 'wrap')):
+def pure_cases(I, r, n, B, kinds=('munge', 'split', 'btw', 'parse', 'ctx', 'wrap', 'strip')):
     iu, us = I.ircutils, I.utils.str
     for _ in range(n):
         kind = r.choice(kinds)
@@ -279,6 +279,17 @@ def pure_cases(I, r, n, B, kinds=('munge', 'split', 'btw', 'parse', 'ctx', 'wrap
                        oracle_ok=ok, kind='pure-ctx', tags=('ctx', 'ctx:size%d' % sz),
                        oracle_msg='' if ok else 'FormatContext %s: start()+end() add %d bytes but size() is %d' % (enc_ctx(c), cost, sz)),
                   ['ctx\t' + enc_ctx(c).replace(' ', '\t') + '\t' + wire.enc(s)])
+        elif kind == 'strip':
+            if r.random() < 0.5:
+                s = gen_text(r, r.randint(0, 8), fmt=0.8, longp=0.0)
+            else:
+                s = ''.join(r.choice(['\x03', '\x03', '0', '1', '5', '9', ',', ',', 'a', '\x02', '\x0f', '\x1d', ' ']) for _ in range(r.randint(0, 14)))
+            v = iu.stripFormatting(s)
+            tags = ['strip']
+            if re.search(r'\x03\d{1,2},\d', s): tags.append('strip:fg,bg')
+            if re.search(r'\x03\d{0,2},(?!\d)', s): tags.append('strip:comma-kept')
+            if re.search(r'\x03\d{3}', s): tags.append('strip:third-digit')
+            B.add(Case({'op': 'strip', 's': s}, impl=wire.enc(v), kind='pure-strip', tags=tags), ['strip\t' + wire.enc(s)])
         elif kind == 'wrap':
             s = gen_text(r, r.randint(1, 30), fmt=r.choice([0.0, 0.1, 0.3, 0.6]))
             p = iu.FormatParser(s); p.parse()
